@@ -97,6 +97,32 @@ pub fn with_tight(c: &mut WtCase) {
     c.sources = sources_of(&c.printed);
 }
 
+/// The literal put in front of every module by `with_overflowing_literal`.
+pub const OVERFLOWING_LITERAL: &str = "99999999999999999999999\n";
+
+/// Puts an integer literal that does not fit 64 bits on a line of its own in front of every module: a lexical error
+/// the tokenizer reports and drops, after which the program is what it was; every table range moves by its length.
+pub fn with_overflowing_literal(c: &mut WtCase) {
+    let l = OVERFLOWING_LITERAL.len();
+    let shift = |r: &mut std::ops::Range<usize>| *r = (r.start + l)..(r.end + l);
+    for pm in c.printed.iter_mut() {
+        pm.text = format!("{OVERFLOWING_LITERAL}{}", pm.text);
+        for r in pm.stmts.iter_mut() {
+            shift(r);
+        }
+        for o in pm.occs.iter_mut() {
+            shift(&mut o.range);
+            if let Some(q) = o.qual.as_mut() {
+                shift(q);
+            }
+        }
+        for (_, r) in pm.decl_ranges.iter_mut() {
+            shift(r);
+        }
+    }
+    c.sources = sources_of(&c.printed);
+}
+
 /// Feature census of a program (for coverage histograms and the non-triviality rule).
 pub fn features(p: &Program) -> Vec<&'static str> {
     let mut f: Vec<&'static str> = Vec::new();
